@@ -2,7 +2,6 @@ package main
 
 import (
 	"fmt"
-	"time"
 
 	"verif/engine/ev"
 )
@@ -73,23 +72,9 @@ func partSeq(r *ev.Run, viols *violSet) {
 	var rows []row
 	alph := map[string]interface{}{}
 	scs := scenarios(r)
-	// relative cost of one cfg of each scenario (measured once; only used to split
-	// the time slice, never for a verdict)
-	weight := map[string]float64{"prune": 1.2, "blocks-fit-and-large": 0.5, "buckets": 1, "one-key-3tx": 1.3, "blocks-rollover": 1.8, "keys+cursor": 2.6}
-	wLeft := 0.0
-	for _, sc := range scs {
-		wLeft += weight[sc.Name] * float64(len(sc.Cfgs))
-	}
-	partEnd := partDeadline
-	defer func() { partDeadline = partEnd }()
 	for _, sc := range scs {
 		alph[sc.Name] = map[string]interface{}{"writable_tx_ops": sc.WOps, "readonly_tx_ops": sc.ROps, "max_committed_tx": sc.MaxTx, "max_reopen": sc.Reopen, "held_reader": sc.Hold, "inner_op_budget": sc.Depth}
 		for _, c := range sc.Cfgs {
-			// every (scenario, cfg) gets its weighted share of what is left of the slice
-			if left := time.Until(partEnd); !partEnd.IsZero() && left > 0 {
-				partDeadline = time.Now().Add(time.Duration(float64(left) * weight[sc.Name] / wLeft))
-			}
-			wLeft -= weight[sc.Name]
 			x := &explorer{r: r, sc: sc, cfg: c, viols: viols}
 			complete := x.explore()
 			if len(x.harn) > 0 {
